@@ -62,7 +62,7 @@ class Atoms(object):
         self.ints = ints  # names of small unsigned int fields / params
         self.bools = bools
         self.enums = enums  # {enum name: [field names]}
-        self.enum_values = {"Ee": ["AA", "BB"], "Ff": ["XX", "YY"]}
+        self.enum_values = {"Ee": ["AA", "BB"], "Ff": ["XX", "YY"], "o.Ee": ["AA", "BB"]}
         self.presentables = presentables
 
 
@@ -114,7 +114,7 @@ class TypedGen(object):
             if k < 0.3:
                 return TExpr(r.choice(["==", "!=", "<", "<=", ">", ">="]), [self.gen(INT, atoms, depth - 1), self.gen(INT, atoms, depth - 1)], BOOL)
             if k < 0.45:
-                en = E(r.choice(["Ee", "Ff"]))
+                en = E(r.choice(["Ee", "Ff", "o.Ee"]))
                 return TExpr(r.choice(["==", "!="]), [self.gen(en, atoms, depth - 1), self.gen(en, atoms, depth - 1)], BOOL)
             if k < 0.55:
                 return TExpr(r.choice(["==", "!="]), [self.gen(BOOL, atoms, depth - 1), self.gen(BOOL, atoms, depth - 1)], BOOL)
@@ -130,7 +130,7 @@ class TypedGen(object):
     def wrong(self, typ, atoms, depth=1):
         """An expression whose type differs from typ."""
         r = self.rnd
-        options = [INT, BOOL, E("Ee"), E("Ff")]
+        options = [INT, BOOL, E("Ee"), E("Ff"), E("o.Ee")]
         options = [o for o in options if o != typ]
         t2 = r.choice(options)
         return self.gen(t2, atoms, depth), t2
@@ -146,7 +146,7 @@ class Site(object):
 def build_module(rnd, max_depth=3):
     """Returns (render(sites) -> (text, {tag: (first line, last line)}), sites)."""
     g = TypedGen(rnd)
-    base_atoms = Atoms(["a", "b", "u6"], ["fl", "fm"], {"Ee": ["e"], "Ff": ["f"]}, ["a", "e", "fl"])
+    base_atoms = Atoms(["a", "b", "u6"], ["fl", "fm"], {"Ee": ["e"], "Ff": ["f"], "o.Ee": ["oe"]}, ["a", "e", "fl"])
     pp_atoms = Atoms(["n", "x"], [], {"Ee": ["k"]}, ["x"])
     sites = []
 
@@ -172,16 +172,22 @@ def build_module(rnd, max_depth=3):
     S["p_enum"] = site("parameter-enum", E("Ee"), "p0", depth=rnd.choice([0, 1]))
     S["ev"] = site("enum-value", INT, "Gg", Atoms([], [], {}, []), nonneg=True, depth=rnd.choice([0, 1, 2]))
 
-    def render(sites_map):
+    def render(sites_map, override=None):
         L = []
         spans = {}
+        override = override or {}
 
         def emit(text, tag=None):
+            if tag in override:
+                if override[tag] is None:
+                    return
+                text, override[tag] = override[tag], None  # replace the tag's first line, drop the rest
             L.append(text)
             if tag:
                 a, b = spans.get(tag, (len(L), len(L)))
                 spans[tag] = (min(a, len(L)), max(b, len(L)))
 
+        emit('import "o.emb" as o')
         emit('[$default byte_order: "LittleEndian"]')
         emit("enum Ee:")
         emit("  AA = 1")
@@ -202,6 +208,7 @@ def build_module(rnd, max_depth=3):
         emit("  1 [+1]  UInt  b", "b")
         emit("  2 [+1]  Ee  e", "e")
         emit("  3 [+1]  Ff  f", "f")
+        emit("  7 [+1]  o.Ee  oe", "oe")
         emit("  4 [+1]  bits:", "anon")
         emit("    0 [+1]  Flag  fl", "anon")
         emit("    1 [+1]  Flag  fm", "anon")
@@ -231,7 +238,7 @@ VIOLATION_KINDS = [
 def mutate(rnd, S):
     """Applies one typing-rule violation; returns (new S, description, tag)."""
     g = TypedGen(rnd)
-    atoms = Atoms(["a", "b", "u6"], ["fl", "fm"], {"Ee": ["e"], "Ff": ["f"]}, ["a"])
+    atoms = Atoms(["a", "b", "u6"], ["fl", "fm"], {"Ee": ["e"], "Ff": ["f"], "o.Ee": ["oe"]}, ["a"])
     key = rnd.choice(sorted(S))
     site = S[key]
     if key in ("pp_cond",):
@@ -256,3 +263,48 @@ def mutate(rnd, S):
         parent_op = cur.op
     desc = {"site": site.kind, "where": where, "parent": parent_op or "position", "had": str(node.typ), "got": str(t2)}
     return S2, desc, site.line_tag
+
+
+OTHER_MODULE = "enum Ee:\n  AA = 1\n  BB = 2\n"
+
+# Single-rule violations that are not "an expression of another type": arity and
+# argument kinds of functions and parameterised types, parameter types,
+# attribute value kinds.  Each replaces the line(s) of one tag of the template.
+LINE_VIOLATIONS = [
+    ("too-few-parameters", "p0", "  1000 [+40]  Pp(1)  p0"),
+    ("too-many-parameters", "p0", "  1000 [+40]  Pp(1, Ee.AA, 2)  p0"),
+    ("no-parameters-given", "p0", "  1000 [+40]  Pp  p0"),
+    ("parameters-on-prelude-type", "r0", "  6 [+1]  UInt(1)  r0"),
+    ("parameters-on-enum-type", "e", "  2 [+1]  Ee(1)  e"),
+    ("parameters-on-unparameterised-struct", "oe", "  7 [+1]  o.Ee(a, b)  oe"),
+    ("$max-without-arguments", "vi", "  let vi = $max()"),
+    ("$present-without-arguments", "vb", "  let vb = $present()"),
+    ("$present-two-arguments", "vb", "  let vb = $present(a, b)"),
+    ("$present-of-non-field", "vb", "  let vb = $present(1 + 1)"),
+    ("$upper_bound-of-boolean", "vi", "  let vi = $upper_bound(fl)"),
+    ("$lower_bound-of-enum", "vi", "  let vi = $lower_bound(e)"),
+    ("$upper_bound-without-arguments", "vi", "  let vi = $upper_bound()"),
+    ("$lower_bound-two-arguments", "vi", "  let vi = $lower_bound(a, b)"),
+    ("byte_order-integer-value", "a", '  0 [+1]  UInt  a\n    [byte_order: 1]'),
+    ("requires-integer-value", "r0", "  6 [+1]  UInt  r0\n    [requires: 1]"),
+    ("requires-string-value", "r0", '  6 [+1]  UInt  r0\n    [requires: "this"]'),
+    ("requires-enum-value", "r0", "  6 [+1]  UInt  r0\n    [requires: Ee.AA]"),
+    ("text_output-boolean-value", "a", "  0 [+1]  UInt  a\n    [text_output: true]"),
+    ("struct-requires-integer", "Foo", "struct Foo:\n  [requires: a + b]"),
+    ("struct-requires-enum", "Foo", "struct Foo:\n  [requires: e]"),
+    ("maximum_bits-string", "Gg", 'enum Gg:\n  [maximum_bits: "8"]\n  ZZ = 1'),
+    ("is_signed-integer", "Gg", "enum Gg:\n  [is_signed: 1]\n  ZZ = 1"),
+    ("namespace-integer", "Gg", "enum Gg:\n  [(cpp) namespace: 3]\n  ZZ = 1"),
+    ("condition-is-enum", "c0", "  if e:\n    5 [+1]  UInt  c0"),
+    ("condition-is-integer", "c0", "  if a:\n    5 [+1]  UInt  c0"),
+    ("offset-is-flag", "d0", "  fl [+1]  UInt  d0\n  8 [+1]  UInt:8[]  d1"),
+    ("size-is-enum", "d0", "  9 [+1]  UInt  d0\n  8 [+e]  UInt:8[]  d1"),
+    ("array-length-is-boolean", "arr", "  300 [+2]  UInt:8[a == 2]  arr"),
+    ("ordering-on-booleans", "vb", "  let vb = fl < fm"),
+    ("arithmetic-on-enum", "vi", "  let vi = e + 1"),
+    ("arithmetic-on-boolean", "vi", "  let vi = fl * 2"),
+    ("and-on-integers", "vb", "  let vb = a && b"),
+    ("equality-across-modules-same-name", "vb", "  let vb = e == oe"),
+    ("choice-across-modules-same-name", "ve", "  let ve = fl ? e : oe"),
+    ("equality-int-vs-enum", "vb", "  let vb = a == Ee.AA"),
+]
